@@ -62,6 +62,7 @@ class Transition:
         "depth",
         "pre_state_flag",
         "counterfactual",
+        "aux",
     )
 
     def program(self):
@@ -165,6 +166,7 @@ def _expand(task):
                 tr.nontrivial = False
                 tr.pre_state_flag = None
                 tr.counterfactual = None
+                tr.aux = {}
                 tr.check = check
                 tr.depth = len(idxs) + 1
                 tr.rel, tr.exc = _lib_step(ctx, rel, op)
@@ -374,6 +376,7 @@ def replay_case(check: Check, case):
     tr.outcome, tr.nontrivial, tr.check, tr.depth = None, False, check, len(prog) - 1
     tr.pre_state_flag = None
     tr.counterfactual = None
+    tr.aux = {}
     tr.rel, tr.exc = _lib_step(ctx, rel, tr.op)
     tr.val, tr.rej, tr.ooc = _ref_step(val, tr.op, scen, tr.rel)
     check.judge(tr)
